@@ -200,7 +200,11 @@ func runC13(c *C13Case) C13Obs {
 			o.Violations = append(o.Violations, "revalidate-fails"+c.defaultKinds())
 		} else {
 			q2, h2, ck2, b2, _ := snapshot(req)
-			if !sameMulti(q2, o.QueryAfter) || !sameMulti(h2, o.HeaderAfter) || fmt.Sprint(ck2) != fmt.Sprint(o.CookieAfter) || !sameJSONText(b2, o.BodyAfter) {
+			paramsSame := sameMulti(q2, o.QueryAfter) && sameMulti(h2, o.HeaderAfter) && fmt.Sprint(ck2) == fmt.Sprint(o.CookieAfter)
+			if paramsSame && !sameJSONText(b2, o.BodyAfter) && allOfBeforeOwnDefault(c.BodySchema) {
+				// only the body changed, and the schema has the shape of the recorded finding
+				o.Violations = append(o.Violations, "second-validation-changes-request:allof-before-own-default")
+			} else if !paramsSame || !sameJSONText(b2, o.BodyAfter) {
 				o.Violations = append(o.Violations, "second-validation-changes-request"+c.defaultKinds())
 			}
 		}
@@ -410,7 +414,55 @@ func c13Obj(r *Rng, depth int) *GSchema {
 	if r.Chance(15) {
 		g.Ap = &GSchema{HasTypes: true, Types: []string{"object"}, Props: map[string]*GSchema{"z": {HasTypes: true, Types: []string{"integer"}, Default: 9.0}}}
 	}
+	if r.Chance(10) {
+		// an allOf member that describes the inside of a member which this schema itself declares (and may default)
+		o := &GSchema{HasTypes: true, Types: []string{"object"}}
+		if r.Chance(70) {
+			o.Default = map[string]any{}
+		}
+		g.Props["o"] = o
+		g.AllOf = append(g.AllOf, &GSchema{HasTypes: true, Types: []string{"object"}, Props: map[string]*GSchema{
+			"o": {HasTypes: true, Types: []string{"object"}, Props: map[string]*GSchema{"q": {HasTypes: true, Types: []string{"integer"}, Default: 1.0}}}}})
+	}
 	return g
+}
+
+// an allOf member reaches into a member that the schema (or a later allOf member) fills in by default: the
+// member's inner defaults are applied on the next validation only (recorded finding)
+func hasInnerDefaults(g *GSchema) bool {
+	found := false
+	if g != nil {
+		g.walk(func(s *GSchema) {
+			if s != g && s.Default != nil {
+				found = true
+			}
+		})
+	}
+	return found
+}
+func allOfBeforeOwnDefault(g *GSchema) bool {
+	found := false
+	if g == nil {
+		return false
+	}
+	g.walk(func(s *GSchema) {
+		for i, m := range s.AllOf {
+			for k, mp := range m.Props {
+				if !hasInnerDefaults(mp) {
+					continue
+				}
+				if own := s.Props[k]; own != nil && own.Default != nil {
+					found = true
+				}
+				for _, later := range s.AllOf[i+1:] {
+					if lp := later.Props[k]; lp != nil && lp.Default != nil {
+						found = true
+					}
+				}
+			}
+		}
+	})
+	return found
 }
 
 func c13ValueFor(r *Rng, g *GSchema, depth int) any {
@@ -581,6 +633,13 @@ func c13Directed() []C13Case {
 			C13Case{CT: "application/json", Skip: skip, BodySchema: &GSchema{HasTypes: true, Types: []string{"object"}, Props: map[string]*GSchema{"inner": {OneOf: []*GSchema{brA, brB}}}}, Body: `{"inner":{"kind":"a"}}`, OtherBranch: []string{"yb"}},
 			C13Case{CT: "application/json", Skip: skip, BodySchema: &GSchema{HasTypes: true, Types: []string{"object"}, Props: map[string]*GSchema{"n": intD(5), "o": {HasTypes: true, Types: []string{"object"}, Props: map[string]*GSchema{"m": intD(6)}}}}, Body: `{"o":{}}`},
 			C13Case{CT: "application/json", Skip: skip, BodySchema: &GSchema{HasTypes: true, Types: []string{"object"}, Props: map[string]*GSchema{"n": intD(5)}}, Body: `{"n":null}`},
+			// an allOf member describing the inside of a member that the schema itself defaults (Props/C13.v: C13_refuted_allof_sees_own_default_later)
+			C13Case{CT: "application/json", Skip: skip, Body: `{}`, BodySchema: &GSchema{HasTypes: true, Types: []string{"object"},
+				AllOf: []*GSchema{{HasTypes: true, Types: []string{"object"}, Props: map[string]*GSchema{"p": {HasTypes: true, Types: []string{"object"}, Props: map[string]*GSchema{"q": intD(1)}}}}},
+				Props: map[string]*GSchema{"p": {HasTypes: true, Types: []string{"object"}, Default: map[string]any{}}}}},
+			C13Case{CT: "application/json", Skip: skip, Body: `{"w":{}}`, BodySchema: &GSchema{HasTypes: true, Types: []string{"object"}, Props: map[string]*GSchema{"w": {HasTypes: true, Types: []string{"object"},
+				AllOf: []*GSchema{{HasTypes: true, Types: []string{"object"}, Props: map[string]*GSchema{"p": {HasTypes: true, Types: []string{"object"}, Props: map[string]*GSchema{"q": intD(1)}}}}},
+				Props: map[string]*GSchema{"p": {HasTypes: true, Types: []string{"object"}, Default: map[string]any{}}}}}}},
 			C13Case{CT: "application/json", Skip: skip, BodySchema: &GSchema{HasTypes: true, Types: []string{"object"}, Props: map[string]*GSchema{"n": intD(5)}}, Body: `{"n":1, "k": 1.0}`},
 			C13Case{CT: "application/json", Skip: skip, BodySchema: &GSchema{HasTypes: true, Types: []string{"object"}, Props: map[string]*GSchema{"n": intD(5)}}, Body: `{}`, Security: [][]string{{"undeclared"}, {"s1"}}, AuthOK: []string{"s1"}, AuthReads: true},
 			C13Case{CT: "application/json", Skip: skip, BodySchema: &GSchema{HasTypes: true, Types: []string{"object"}, Props: map[string]*GSchema{"n": intD(5)}}, Body: `{}`, Security: [][]string{{"s2"}}, AuthOK: []string{"s1"}, AuthReads: true},
